@@ -90,6 +90,11 @@ func genC10(cfg Config, emit Emit) error {
 	}
 	genCbor(cfg, emit, nc)
 	genCborBlocks(cfg, emit, nb)
+	nw := 80
+	if cfg.Thorough() {
+		nw = 2000
+	}
+	genWire(cfg, emit, nw, 0)
 	return nil
 }
 
